@@ -132,10 +132,14 @@ def targets():
     ]
 
 
-STAGES = [['C05_base.v'],
-          ['C05_mahony.v', 'C05_ekf.v', 'C05_compl.v', 'C05_scale.v', 'C05_scale_roleq_ned.v', 'C05_scale_roleq_enu.v'],
+STAGES = [['C05_base.v', 'C05_walk.v'],
+          ['C05_mahony.v', 'C05_ekf.v', 'C05_compl.v', 'C05_scale.v', 'C05_scale_lock.v', 'C05_scale_lock_roleq.v', 'C05_fixed_madgwick.v'],
           ['C05.v', ('C05_refuted_ekf.v', {'finding': 'ekf.dhdq-refactored/not-derivative-of-h'}),
            ('C05_refuted_zero_gyro.v', {'finding': 'mahony/zero-gyro-frozen'})]]
+# thorough tier only: evaluation / lockstep walks that take minutes
+STAGES_THOROUGH = [['C05_fixed_t_aqua.v', 'C05_fixed_t_roleq.v', 'C05_fixed_t_mahony.v', 'C05_scale_t_mahony.v', 'C05_scale_t_aqua.v'],
+                   ['C05_thorough.v']]
+COQ_TIMEOUT = 1500
 
 
 def _impl():
@@ -363,6 +367,10 @@ def run_filter(inp):
     g, mref = _refs(filt, frame)
     R = cm.Rspec(qstar)
     a, m = R.T @ g, R.T @ mref
+    # axis-aligned truths: body-frame images with components that are zero up to rounding are made EXACTLY zero (a random
+    # attitude never produces an exact zero; guards such as `not np.all(mag)` only show on exact zeros)
+    a = np.where(np.abs(a) < 1e-13, 0.0, a)
+    m = np.where(np.abs(m) < 1e-13, 0.0, m)
     q0 = _initial(qstar, inp['ang'], inp.get('el', 0.0), inp.get('az', 0.0), g)
     rng = np.random.default_rng(int(inp.get('noise_seed', 0)))
     gyr = rng.uniform(-1, 1, (N, 3)) * float(inp.get('gyro_noise', 1e-3)) / math.sqrt(3)
@@ -589,6 +597,13 @@ def _cfg_inp(row, qstar, ang, el, az, seed):
             'el': float(el), 'az': float(az), 'noise_seed': int(seed), 'gyro_noise': 1e-3, **extra}
 
 
+_S2 = math.sqrt(0.5)
+# truths whose body-frame measurements have exactly-zero components: identity, quarter turns about each axis (both signs for
+# pitch), a half turn, and a roll-then-yaw combination
+AXIS_ALIGNED = [np.array([1.0, 0, 0, 0]), np.array([_S2, 0, _S2, 0]), np.array([_S2, _S2, 0, 0]), np.array([_S2, 0, 0, _S2]),
+                np.array([_S2, 0, -_S2, 0]), np.array([0.0, 1.0, 0, 0]), np.array([0.5, 0.5, 0.5, 0.5])]
+
+
 def _attitudes(rng, n):
     out = [np.array([1.0, 0, 0, 0]), cm.axang_q([1, 0, 0], math.pi / 2), cm.axang_q([0, 1, 0], -2.0), cm.axang_q([0, 0, 1], math.pi)]
     while len(out) < n + 4:
@@ -606,15 +621,14 @@ def search(ctx, scale):
             continue
         marg = row[1]
         if not thorough:
-            if marg:    # tilt-only, heading-only beyond 90 deg (rotation about the vertical), heading-only 175, mixed, small
+            if marg:    # tilt-only, heading-only beyond 90 deg (rotation about the vertical), heading-only 175, mixed (every 4th row: 5 deg)
                 plan = [(atts[4 + ci % 4], 175.0, 0.0, 40.0),
-                        (atts[ci % 4], (100.0, 135.0, 160.0)[ci % 3], 90.0, 0.0),
+                        (AXIS_ALIGNED[ci % 7], (100.0, 135.0, 160.0)[ci % 3], 90.0, 0.0),        # axis-aligned truth, far heading start
                         (atts[4 + (ci + 2) % 4], 175.0, 90.0, 0.0),
-                        (atts[4 + (ci + 1) % 4], (150.0, 120.0, 60.0)[ci % 3], 45.0, 200.0),
-                        (atts[(ci + 1) % 4], 5.0, 30.0, 300.0)]
+                        (atts[4 + (ci + 1) % 4], (150.0, 120.0, 60.0, 5.0)[ci % 4], 45.0, 200.0)]
             else:
                 plan = [(atts[4 + ci % 4], 175.0, 0.0, 40.0),
-                        (atts[ci % 4], (120.0, 90.0, 60.0)[ci % 3], 0.0, 200.0),
+                        (AXIS_ALIGNED[ci % 7], (120.0, 90.0, 60.0)[ci % 3], 0.0, 200.0),          # axis-aligned truth
                         (atts[4 + (ci + 1) % 4], 5.0, 0.0, 300.0)]
         else:
             plan = []
@@ -624,6 +638,8 @@ def search(ctx, scale):
                         plan.append((q, ang, el, float(rng.uniform(0, 360))))
                 if marg:
                     plan.append((q, (95.0, 120.0, 150.0)[(ai + ci) % 3], 90.0, 0.0))
+            for qa in AXIS_ALIGNED:
+                plan.append((qa, 140.0, 90.0 if marg else 0.0, 0.0))
         for k, (q, ang, el, az) in enumerate(plan):
             inp = _cfg_inp(row, q, ang, el if marg else min(el, 60.0), az, seed=1000 * ci + k)
             ctx.check('converge', inp, o_converge(inp),
@@ -644,7 +660,7 @@ def search(ctx, scale):
         if row[3] or row[9] == 't' or len(row) > 10:
             continue
         inp = _cfg_inp(row, atts[4 + ci % 2], 30.0, 45.0, 100.0, seed=7)
-        inp['N'] = min(inp['N'], 1500) if row[0] not in ('madgwick',) else inp['N']
+        inp['N'] = min(inp['N'], 300 if row[0] in ('madgwick', 'mahony', 'aqua') else 1500)   # frozen filters show it at once
         ctx.check('zero_gyro', inp, o_zero_gyro(inp), nontrivial_key=('zero', ci))
     # magnitude independence: 40 samples, acc and mag scaled over decades (m/s^2, raw counts, milli-units, off-nominal 0.85/1.15)
     done = set()
